@@ -20,6 +20,15 @@ void h_tls_get_client_key_exchange_pke(void) { GT_H(tls_record_get_handshake_cli
 void h_tls_get_certificate_verify(void) { GT_H(tls_record_get_handshake_certificate_verify) }
 //@job name=tls_get_finished props=C06 enforce=tls_record_get_handshake_finished replace=tls_record_get_handshake timeout=600
 void h_tls_get_finished(void) { GT_H(tls_record_get_handshake_finished) }
+//@job name=tls_get_server_hello_done props=C06 enforce=tls_record_get_handshake_server_hello_done replace=tls_record_get_handshake timeout=600
+void h_tls_get_server_hello_done(void)
+{
+	INPUT(gt_in, H); ASSUME(H.len >= 5 && H.len <= 5 + 65535);
+	MKBUF(record, H.first, H.len); ASSUME(((((size_t)record[3]) << 8) | record[4]) + 5 == H.len);
+	int ret = tls_record_get_handshake_server_hello_done((H.mode & 1) ? NULL : record);
+	if (ret == 1) { CANARY("parsed"); }
+	CANARY("returned");
+}
 
 //@job name=tls_get_server_hello props=C06 enforce=tls_record_get_handshake_server_hello replace=tls_record_get_handshake,tls_uint16_from_bytes,tls_uint8_from_bytes,tls_array_from_bytes,tls_uint8array_from_bytes,tls_uint16array_from_bytes,tls_protocol_name,tls_cipher_suite_name timeout=600
 void h_tls_get_server_hello(void)
